@@ -719,45 +719,26 @@ example : metaAfterFixed priorP0 tPd = ["HEX_IL_INSN_ATTR_WPRED"] := by decide
 /-! ## 4. -/
 theorem noped_none : getMeta Flags.empty = ["HEX_IL_INSN_ATTR_NONE"] := by decide
 
-/-! ## Dependants of the known defect (`preds_written` is never cleared).
-    `preds_written_never_cleared` is TRUE on the current source; when the source is repaired it stops compiling
-    (= "finding repaired"). Nothing above this line depends on it. -/
--- BEGIN KNOWN-DEFECT SECTION
-section KnownDefect
+/-! ## The repaired source: `reset_flags` clears `preds_written` (fix commit "written predicate numbers are per extension
+    instance and cleared by reset_flags").  `preds_written_cleared` is a fact about the REGENERATED table; if the
+    clearing is ever removed again it stops compiling and the full statement below is no longer proved. -/
+section Repaired
 
-theorem preds_written_never_cleared : ¬ ("preds_written" ∈ Gen.resetFlagsCleared) := by decide
+theorem preds_written_cleared : "preds_written" ∈ Gen.resetFlagsCleared := by decide
 
-/-- consequence: `resetFlags` keeps the recorded predicates -/
-theorem resetFlags_keeps_preds (f : Flags) : (resetFlags f).preds = f.preds := by
-  simp [resetFlags, preds_written_never_cleared]
+/-- consequence: `resetFlags` forgets the recorded predicates -/
+theorem resetFlags_clears_preds (f : Flags) : (resetFlags f).preds = [] := by
+  simp [resetFlags, preds_written_cleared]
 
-/-- consequence: the recorded predicates only ever grow along a history of parts -/
-theorem preds_leak (prior : Flags) (t : LTree) :
-    ∀ p ∈ prior.preds, p ∈ (t.events.foldl applyEvent (resetFlags prior)).preds := by
-  intro p hp
-  rw [foldl_preds, resetFlags_keeps_preds]
-  generalize t.events.filterMap evPred = l
-  induction l generalizing prior with
-  | nil => exact hp
-  | cons n l ih =>
-    rw [List.foldl_cons]
-    exact ih { prior with preds := addPred prior.preds n } (by
-      show p ∈ addPred prior.preds n
-      unfold addPred; split
-      · exact hp
-      · exact List.mem_append_left _ hp)
+/-- **The full-strength statement** (every prior attribute state, every tree): the reported attributes are exactly
+    those of the instruction's own tree. -/
+theorem meta_of_tree_full : meta_of_tree_full_statement := fun prior t =>
+  getMeta_of_tree (resetFlags prior) t (six_off_after_reset prior) (resetFlags_clears_preds prior)
 
-/-- The project's permanently failing `test_C4_and_and`: after a part that assigned explicit `P0`, a part assigning
-    a predicate by letter reports `WRITE_P0` although its text has none. -/
-theorem meta_of_tree_full_statement_false : ¬ meta_of_tree_full_statement := by
-  intro h
-  have h1 : metaAfter priorP0 tPd = ["HEX_IL_INSN_ATTR_WPRED", "HEX_IL_INSN_ATTR_WRITE_P0"] := by decide
-  have h2 : (attrsOfTree tPd).render = ["HEX_IL_INSN_ATTR_WPRED"] := by decide
-  have := h priorP0 tPd
-  rw [h1, h2] at this
-  exact absurd this (by decide)
+/-- the project's formerly failing `test_C4_and_and`: after a part that assigned explicit `P0`, a part assigning a
+    predicate by letter no longer reports `WRITE_P0` -/
+example : metaAfter priorP0 tPd = ["HEX_IL_INSN_ATTR_WPRED"] := by decide
 
-end KnownDefect
--- END KNOWN-DEFECT SECTION
+end Repaired
 
 end Rzil
